@@ -23,7 +23,7 @@ BUILD = os.path.join(ROOT, "build")
 BUILD_SAN = os.path.join(ROOT, "build-san")
 SCRATCH = os.path.join(ROOT, "scratch")
 SPEC = os.path.join(VERIF, "spec")
-NCPU = os.cpu_count() or 4
+NCPU = min(8, os.cpu_count() or 4)   # several checks may run side by side
 
 
 class InfraError(Exception):
